@@ -30,6 +30,10 @@ type c07Req struct {
 	// Message value re-used after an earlier publish keeps its old identifier. It is used unchanged and must not influence
 	// the identifiers the client chooses for the other requests.
 	IDBehind int `json:"idBehind,omitempty"`
+	// IDAhead > 0 (one publish in a case without other publishes): its own identifier is IDAhead above the counter, i.e. the
+	// very number the client will give to one of the Subscribe / Unsubscribe requests made at the same time. Identifiers of
+	// different kinds of request do not share anything: each still completes on its own acknowledgement only.
+	IDAhead int `json:"idAhead,omitempty"`
 }
 
 type c07Item struct {
@@ -54,6 +58,29 @@ var c07AckTypes = []int{rtPubAck, rtPubRec, rtPubComp, rtSubAck, rtUnsubAck}
 
 func c07Gen(rt *rapid.T) c07Case {
 	var c c07Case
+	if rapid.IntRange(0, 7).Draw(rt, "crossKind") == 0 {
+		// one publish whose own identifier equals an identifier the client hands to a concurrent Subscribe / Unsubscribe
+		c.Reqs = []c07Req{{Kind: rapid.SampledFrom([]string{"pub1", "pub2"}).Draw(rt, "pk"), IDAhead: rapid.IntRange(1, 3).Draw(rt, "idAhead")}}
+		n := rapid.IntRange(3, 6).Draw(rt, "others")
+		for i := 0; i < n; i++ {
+			q := c07Req{Kind: rapid.SampledFrom([]string{"sub", "unsub"}).Draw(rt, "ok")}
+			if q.Kind == "sub" {
+				q.NFilters = 1
+				q.Codes = []int{rapid.IntRange(0, 2).Draw(rt, "code")}
+			}
+			c.Reqs = append(c.Reqs, q)
+		}
+		var acks []c07Item
+		for i, q := range c.Reqs {
+			acks = append(acks, c07Item{Op: "ack", Req: i})
+			if q.Kind == "pub2" {
+				acks = append(acks, c07Item{Op: "ack", Req: i})
+			}
+		}
+		c.Script = rapid.Permutation(acks).Draw(rt, "ackOrder")
+		c.DisconnectAt = -1
+		return c
+	}
 	c.Reqs = rapid.SliceOfN(rapid.Custom(func(rt *rapid.T) c07Req {
 		q := c07Req{Kind: rapid.SampledFrom([]string{"pub1", "pub2", "pub2", "sub", "sub", "unsub"}).Draw(rt, "kind")}
 		if q.Kind == "sub" {
@@ -175,6 +202,9 @@ func c07Run(tb rapid.TB, c c07Case) {
 	n := len(c.Reqs)
 	idBase := uint16(atomic.LoadUint32(&r.cli.idLast))
 	ownID := func(q c07Req) uint16 {
+		if q.IDAhead > 0 {
+			return idBase + uint16(q.IDAhead)
+		}
 		if q.IDBehind == 0 {
 			return 0
 		}
@@ -245,7 +275,8 @@ func c07Run(tb rapid.TB, c c07Case) {
 		var idx int
 		fmt.Sscanf(name, "r/%d", &idx)
 		st[idx].id = pk.ID
-		if used[pk.ID] {
+		crossKind := len(c.Reqs) > 0 && c.Reqs[0].IDAhead > 0 && (idx == 0 || pk.ID == int(ownID(c.Reqs[0])))
+		if used[pk.ID] && !crossKind {
 			fail("two outstanding requests carry the same packet identifier %d: acknowledgements cannot be routed to the right one", pk.ID)
 		}
 		used[pk.ID] = true
